@@ -42,7 +42,7 @@ func init() {
 		"DESIGN.md §5 C02, §4.3, §4.4",
 		[]string{"semantics of match (C01)", "uniqueness of document IDs at run time"},
 		nil,
-		ruleC02Select, ruleMergeSourcesPrivate("C02.indep"), ruleFieldWriterCensus("C02.order"), ruleSmallContracts("C02.helper", "matchdoc"), ruleQueryMethods("C02.query"))
+		ruleC02Select, ruleMergeSourcesPrivate("C02.indep"), ruleFieldWriterCensus("C02.order"), ruleSmallContracts("C02.helper", "matchdoc"), ruleQueryMethods("C02.query"), ruleStreamSeparators("C02.sep"))
 
 	mk("C03", "Inheritance chain is resolved from filenames and $parent, base first",
 		"path-effect summaries of loadFileAndParents / parents / parentsFromDirective / parentsFromFilename / toAbsolutePaths / globFiles / parentsFromSymlink / MergeFile and of cmd/bkl.main",
@@ -58,7 +58,7 @@ func init() {
 		"DESIGN.md §5 C04, §4.7",
 		[]string{"that the three libraries agree on the logical content of equivalent documents (anchors, dotted keys, dates)", "TOML date/time types"},
 		[]string{"go-toml/v2 v2.2.3 decodes integers into int64 and floats into float64 (checked against go.mod)."},
-		ruleC04Census, ruleC04Canon, ruleC04Fresh, ruleC04Float, ruleC04Normalised("C04.normalised"), ruleC04Ext, ruleC05All)
+		ruleC04Census, ruleC04Canon, ruleC04Fresh, ruleC04Float, ruleC04Normalised("C04.normalised"), ruleC04Ext, ruleC05All, ruleStreamSeparators("C04.sep"), ruleYamlScalars("C04.scalars"))
 
 	mk("C05", "Output round-trips in every format: what bkl writes reads back unchanged",
 		"interprocedural may-be-nil analysis of every map/slice boxed into a tree value (empty containers stay containers, never a typed nil that prints as null); census of the format table (writer and reader reach the same codec package), separator literals matched against the reader's splitter pattern, path-effect summaries of every stream encoder/decoder (no document lost), format-choice flow in cmd/bkl.main and the Output* methods",
@@ -66,7 +66,7 @@ func init() {
 		"DESIGN.md §5 C05",
 		[]string{"decode(encode(x)) = x for look-alike strings, doubles, empty containers (third-party codecs)", "agreement with independent parsers"},
 		nil,
-		ruleC05Table, ruleC05Sep, ruleC05All, ruleC05File, ruleBklMainFormat, ruleTypedNil("C05.typednil"), ruleFilepath("C05.path"), ruleSmallContracts("C05.helper", "getformat"))
+		ruleC05Table, ruleC05Sep, ruleC05All, ruleC05File, ruleBklMainFormat, ruleTypedNil("C05.typednil"), ruleFilepath("C05.path"), ruleSmallContracts("C05.helper", "getformat"), ruleStreamSeparators("C05.sepexact"), ruleYamlScalars("C05.scalars"), ruleC04Float)
 
 	mk("C06", "Plain data passes through unchanged; $$ escapes any literal dollar",
 		"interprocedural may-be-nil analysis of every map/slice boxed into a tree value (an empty map or list is never replaced by a typed nil); path-effect summaries of finalizeOutput, validate, outputDocument and the process1 family; census of every $-literal used to recognise directives; call-graph check that the unescape is applied exactly once",
@@ -74,7 +74,7 @@ func init() {
 		"DESIGN.md §5 C06",
 		[]string{"exotic strings through deepClone's YAML round trip", "collisions of unescaped keys (made deterministic by the D6 repair, not prevented)", "process2's identity part is checked only through its directive dispatch (C13/C14)"},
 		nil,
-		ruleTypedNil("C06.typednil"), ruleFinalize, ruleOutputGate("C06"), ruleValidate("C06"), ruleMarshalRoute, ruleC10Dispatch, ruleDollarCensus)
+		ruleTypedNil("C06.typednil"), ruleFinalize, ruleOutputGate("C06"), ruleValidate("C06"), ruleMarshalRoute, ruleC10Dispatch, ruleDollarCensus, ruleC13)
 
 	mk("C07", "No unresolved $required or stray directive ever reaches the output",
 		"must-pass-through on path-effect summaries of outputDocument (filter, then validate with checked error, then finalise), coverage of validate (every key, value and element), predicate of validateString, who may call a MarshalStream, $encode validates its input",
@@ -114,7 +114,7 @@ func init() {
 		"DESIGN.md §5 C11",
 		[]string{"interaction with references copied out of hidden trees"},
 		nil,
-		ruleC11Select, ruleC11Hide, ruleOutputGate("C11"), ruleMarkerHelpers("C11.marker"), ruleOutputFresh)
+		ruleC11Select, ruleC11Hide, ruleOutputGate("C11"), ruleMarkerHelpers("C11.marker"), ruleOutputFresh, ruleYamlScalars("C11.scalars"))
 
 	mk("C12", "$repeat expands to exactly n indexed copies (cartesian product for named counts)",
 		"induction-variable analysis of the three counted loops (0 <= i < n, step 1, i bound on a per-iteration clone of the context), lockstep analysis of the documents/contexts slices, path-effect summaries of repeatDoc*, process2RepeatObj*",
@@ -138,7 +138,7 @@ func init() {
 		"DESIGN.md §5 C14",
 		[]string{"exact bytes produced by the format encoders", "tolist value formatting (%v)"},
 		nil,
-		ruleC14, ruleC14Decode, ruleC07Encode("C14.validate"), ruleC04Normalised("C14.inverse"))
+		ruleC14, ruleC14Decode, ruleC07Encode("C14.validate"), ruleC04Normalised("C14.inverse"), ruleC04Float, ruleYamlScalars("C14.scalars"))
 
 	mk("C15", "bkld round trip: base + bkld(base, target) evaluates to target",
 		"path-effect summaries of diff/diffDoc against the diff table; composition check diff-emits-wholesale x merge-accepts over kind pairs; nil-diff-implies-equal-sequence check; vocabulary agreement of emitted directives with the evaluator",
@@ -146,7 +146,7 @@ func init() {
 		"DESIGN.md §5 C15",
 		[]string{"over-deletion by partial $delete patterns", "multiset/ordering semantics of list diffs beyond the nil case", "the round trip in general"},
 		nil,
-		ruleC15Table, ruleC15Seq, ruleC15Compose, ruleC15Dir, ruleMarkerVocabulary("C15.vocab", map[string][]string{"cmd/bkld": {"$delete", "$replace", "$match"}}), ruleC01List)
+		ruleC15Table, ruleC15Seq, ruleC15Compose, ruleC15Dir, ruleMarkerVocabulary("C15.vocab", map[string][]string{"cmd/bkld": {"$delete", "$replace", "$match"}}), ruleC01List, ruleC04Census, ruleC04Canon)
 
 	mk("C16", "bkli yields the maximal common base, and the migrate workflow is lossless",
 		"path-effect summaries of intersect against the intersection table, may-be-nil analysis of every container boxed into the result, per-element accumulation (loop-exit analysis), left fold in main, marker literal agreement with the validator",
@@ -154,7 +154,7 @@ func init() {
 		"DESIGN.md §5 C16",
 		[]string{"maximality", "[] ∩ []", "the bkli + bkld + bkl round trip"},
 		nil,
-		ruleC16Table, ruleTypedNil("C16.typednil"), ruleC16Fold, ruleMarkerVocabulary("C16.marker", map[string][]string{"cmd/bkli": {"$required"}}), ruleValidate("C16"), ruleC01List)
+		ruleC16Table, ruleTypedNil("C16.typednil"), ruleC16Fold, ruleMarkerVocabulary("C16.marker", map[string][]string{"cmd/bkli": {"$required"}}), ruleValidate("C16"), ruleC01List, ruleC04Census, ruleC04Canon)
 
 	mk("C17", "bklr keeps exactly the $required skeleton and agrees with bkl on what is missing",
 		"path-effect summaries of required against the skeleton table; marker literal agreement between bklr and the evaluator's validator",
@@ -162,7 +162,7 @@ func init() {
 		"DESIGN.md §5 C17",
 		[]string{"nothing further: idempotence follows from the table"},
 		nil,
-		ruleC17Table, ruleMarkerVocabulary("C17.marker", map[string][]string{"cmd/bklr": {"$required"}}), ruleValidate("C17"), ruleStripMarker("C17.strip"), ruleC17Main, ruleTypedNil("C17.typednil"))
+		ruleC17Table, ruleMarkerVocabulary("C17.marker", map[string][]string{"cmd/bklr": {"$required"}}), ruleValidate("C17"), ruleStripMarker("C17.strip"), ruleC17Main, ruleTypedNil("C17.typednil"), ruleC03)
 
 	mk("C18", "With a root directory set, nothing outside it is ever read",
 		"who-may-call census of file-content APIs (only (*os.Root).Open on the parser's root and stdin), frozen list of metadata probes, writer census and path summary of SetRoot (roots only narrow), data-flow of the path handed to root.Open, dominance of SetRoot over loading in cmd/bkl.main",
@@ -178,7 +178,7 @@ func init() {
 		"DESIGN.md §5 C19, §4.4",
 		[]string{"byte equality of repeated calls (follows from C19.pure + C09, not checked separately)"},
 		nil,
-		ruleOutputPure, ruleCloneContract("C19.clone"), ruleDeepClone, ruleFieldWriterCensus("C19.docs"), ruleQueryMethods("C19.query"))
+		ruleOutputPure, ruleCloneContract("C19.clone"), ruleDeepClone, ruleFieldWriterCensus("C19.docs"), ruleQueryMethods("C19.query"), ruleMapRanges, ruleSortedMap)
 
 	mk("C20", "bklb/kubectl-bkl rewrite only file arguments; all else passes through",
 		"path-effect summaries of wrapper.WrapOrDie and cmd/bklb.main: argv construction, the only store into the argument copy, error paths ending before exec",
